@@ -335,6 +335,12 @@ func runSelfManaged(rc *core.RunCtx) {
 			rc.Scen("op%d: node %s is told %s (%s) is unreachable", op, at.id, x.addr, x.id)
 			simrt.Fault("unreachable-report-member")
 			at.c.Engine().BroadcastEvent(actor.RemoteUnreachableEvent{ListenAddr: x.addr})
+			for k := g.Pick(3, 2, 1); k > 0; k-- {
+				// the same report arrives again right behind the first one
+				// (several stream writers / retries give up at the same time)
+				simrt.Fault("unreachable-report-duplicate")
+				at.c.Engine().BroadcastEvent(actor.RemoteUnreachableEvent{ListenAddr: x.addr})
+			}
 			settle(time.Second)
 			expect[at.id][x.id] = false
 			check("unreachable-member")
